@@ -641,6 +641,32 @@ func (x *Exec) applyContract(fr *Frame, st *State, sp *FuncSpec, sig *types.Sign
 		x.obligs = append(x.obligs, &Oblig{Name: name, Kind: "vacuity", Unit: x.unitName, Goal: c.Not(st.PC), Pre: preProbe,
 			NAssume: len(x.assumes), Self: -1, Src: "the state after assuming the callee's postconditions is satisfiable (expected: sat)"})
 	}
+	// call-site assertions after the call (callpost): checked in the state after the call, then assumed
+	if fr != nil && !x.dry {
+		cpSpec := x.Spec
+		if fr.spec != nil && fr.spec.CallPost != nil {
+			cpSpec = fr.spec
+		}
+		if cpSpec != nil && cpSpec.CallPost != nil {
+			for _, name := range []string{sp.Name, calleeLabel(sp), "(" + sp.Recv + ")." + sp.Name} {
+				cl, ok := cpSpec.CallPost[name]
+				if !ok {
+					continue
+				}
+				if x.callpreUsed == nil {
+					x.callpreUsed = map[string]bool{}
+				}
+				x.callpreUsed[cpSpec.Key()+"|post|"+name] = true
+				cenv := x.frameEnv(fr, st)
+				for _, cp := range cl {
+					t := x.evalBool(cp.E, cenv)
+					x.oblige(st, "callpost", calleeLabel(sp)+"."+cp.Label, site, cp.Src, t)
+					x.assume(st, t)
+				}
+				break
+			}
+		}
+	}
 	return results
 }
 
